@@ -26,8 +26,11 @@ type StationPlan struct {
 	Gzip    bool              `json:"gzip,omitempty"`
 	Motd    []string          `json:"motd,omitempty"`
 	Status  bool              `json:"status,omitempty"`
-	Robust  string            `json:"robust,omitempty"` // "", "forced", "disabled"
-	UA      []string          `json:"ua,omitempty"`
+	// StatusDelayUs: simulated time each UpdateStatus call takes (a slow GUI);
+	// the report counts as delivered when the call returns.
+	StatusDelayUs []int    `json:"status_delay_us,omitempty"`
+	Robust        string   `json:"robust,omitempty"` // "", "forced", "disabled"
+	UA            []string `json:"ua,omitempty"`
 }
 
 // SessionPlan is one Exchange of the two stations over one link.
@@ -51,8 +54,11 @@ type Scenario struct {
 // StatusRec records UpdateStatus calls. It has its own lock and touches
 // nothing the session goroutine touches (DESIGN C17).
 type StatusRec struct {
-	mu   sync.Mutex
-	list []StatusEv
+	mu       sync.Mutex
+	list     []StatusEv
+	delays   []int
+	calls    int
+	inflight int
 }
 
 type StatusEv struct {
@@ -73,8 +79,24 @@ func (s *StatusRec) UpdateStatus(st fbb.Status) {
 		ev.CSize = st.Receiving.CompressedSize()
 	}
 	s.mu.Lock()
+	d := core.TapeAt(s.delays, s.calls, 0)
+	s.calls++
+	s.inflight++
+	s.mu.Unlock()
+	if d > 0 {
+		time.Sleep(time.Duration(d) * time.Microsecond)
+	}
+	s.mu.Lock()
+	s.inflight--
 	s.list = append(s.list, ev)
 	s.mu.Unlock()
+}
+
+// Busy reports whether an UpdateStatus call is still in progress.
+func (s *StatusRec) Busy() bool {
+	s.mu.Lock()
+	defer s.mu.Unlock()
+	return s.inflight > 0
 }
 
 func (s *StatusRec) Events() []StatusEv {
@@ -99,6 +121,7 @@ func (st *stationRT) nextSession(failInbound int) {
 	if st.dir != nil {
 		st.dir.NextSession()
 		st.dir.failAt = failInbound
+		st.dir.failAnswerAt = 0
 		return
 	}
 	st.h.NextSession()
@@ -140,7 +163,7 @@ func newStation(name string, p StationPlan, hist *mbox.History) *stationRT {
 		}
 	}
 	if p.Status {
-		st.status = &StatusRec{}
+		st.status = &StatusRec{delays: p.StatusDelayUs}
 	}
 	return st
 }
@@ -284,4 +307,25 @@ func sortedCopy(xs []string) []string {
 	out := append([]string(nil), xs...)
 	sort.Strings(out)
 	return out
+}
+
+// setDefers makes the station answer Defer for the given MIDs from now on
+// (nil: no deferrals).
+func (st *stationRT) setDefers(mids []string) {
+	m := map[string]bool{}
+	for _, x := range mids {
+		m[x] = true
+	}
+	if st.dir != nil {
+		st.dir.deferNow = m
+		return
+	}
+	for _, k := range core.SortedKeys(st.h.Policy) {
+		if st.h.Policy[k] == '=' {
+			delete(st.h.Policy, k)
+		}
+	}
+	for x := range m {
+		st.h.Policy[x] = '='
+	}
 }
